@@ -383,7 +383,10 @@ fn corpus_docs(rng: &mut Rng, thorough: bool) -> Vec<Vec<u8>> {
         "é: ü\n", "- €\n- 😀\n", "name: x\nn: 3\n", "name: é€😀\nn: -7\n", "A", "B: 5", "C: {x: y}", "[1, 2, 3]", "[1, 2", "{a: 1", "a: b: c", "\"esc\\u00e9\\n\"",
         "'it''s'", ">\n folded\n text\n", "|\n lit\n eral\n", "k: >-\n  a\n  b\n", "true", "1.5", "-3", "0x1F", "null", "&a x", "- &a x\n- *a\n", "*x", "[&a hello, *a, *a]", "- &a 'q'\n- *a\n- b\n", "- &a \"e\\n\"\n- *a\n", "- x\n- &b é€\n- *b\n- *b\n", "- &a \"plain\"\n- *a\n",
         "a: 1\r\nb: 2\r\n", "a:\t1\n", "# only comment\n", "a: 1 # c\n", "? a\n: b\n", "!!str 5", "key: 'é'\n", "\"a\\\n  b\"", "- \n- ~\n", "a: |\n  é\n  €\n",
-        "x: \"\\ud83d\\ude00\"", "%YAML", "%TAG", "%YAML 1.2", "%YAML 1.2\n---\na\n", "a\n...\n%x", "%TAG ! tag:x,2000:\n--- !a b\n", "a\n%", "%\n", "--- a\n...\n%YAML 1.2\n--- b", "!!binary aGk=", "!!float 007", "- !!binary aGk=\n- b\n", "!!str plain", "a\u{85}b: 1\n", "a\u{2028}b\n", "\u{feff}", "\u{feff}\u{feff}", "a\u{feff}b\n", "k: \u{feff}\n"] {
+        "x: \"\\ud83d\\ude00\"", "%YAML", "%TAG", "%YAML 1.2", "%YAML 1.2\n---\na\n", "a\n...\n%x", "%TAG ! tag:x,2000:\n--- !a b\n", "a\n%", "%\n", "--- a\n...\n%YAML 1.2\n--- b", "!!binary aGk=", "!!float 007", "- !!binary aGk=\n- b\n", "!!str plain", "a\u{85}b: 1\n", "a\u{2028}b\n", "\u{feff}", "\u{feff}\u{feff}", "a\u{feff}b\n", "k: \u{feff}\n",
+        // errors at the START of an unterminated last line after non-ASCII text in a comment / directive line (fix 08f5b65: the
+        // reader path took such a token for the scanner's closing mark), and real closing marks after such lines
+        "#é\n[", "# é\n]", "a: 1 # é\n]", "#é\n---\n[", "%?é,\n}", "#é\r[x", "a: [1\r\n# é\r]", "# é", "k: 1 # é\n# €😀", "#é\n&x", "#é\nk: &a", "a\n...\n%x é"] {
         v.push(s.as_bytes().to_vec());
         // with one / two byte-order marks in front
         v.push(format!("\u{feff}{s}").into_bytes());
